@@ -496,7 +496,8 @@ def _amend_iter_post(e):
 
 
 @contract("stepup/core/workflow.py::Workflow._supply_files", props=[], verify=False,
-          note="links the paths as inputs of the step and returns a snapshot (file, state, detached, new edge) per path")
+          note="links the paths as inputs of the step and returns a snapshot (file, state, detached, new edge) per path; its "
+               "effect on the declaration view is proved in contracts/C08_claims.py, which completes this contract")
 class supply_files_assumed:
     may_raise = {common.GraphError: None}
     result = lambda: ty.SeqOf(SupplyInfoRec)
@@ -504,12 +505,22 @@ class supply_files_assumed:
 
     @staticmethod
     def ensures(self):
-        """View: the file nodes it creates for undeclared inputs are UNDECLARED, hence detached (triggers
-        file_check_undeclared_detached_*): no claim, step label, tree or glob registration changes."""
+        """View (proved for one path as Workflow._resolve_supply_file, contracts/C08_claims.py): an input under an
+        attached static tree that has no attached node yet is adopted by that tree (a new STATIC claim); every other
+        node it creates is UNDECLARED, hence detached.  Existing claims, step labels, trees and glob registrations do
+        not change."""
+        c = cur()
         db = common.db_of(self)
         old = common.View(db.__snapshot__())
         db.bump()
-        return wrap_bool(common.frame_view(old, common.View(db)))
+        new = common.View(db)
+        p = tm.Var(c.fresh_name("p!bound"), STR)
+        static = tm.mk_int(common.FileRole.STATIC.value)
+        kept = tm.Implies(old.claimed(p), tm.And(new.claimed(p), tm.Eq(new.role(p), old.role(p)), tm.Eq(new.creator(p), old.creator(p))))
+        added = tm.Implies(tm.And(new.claimed(p), tm.Not(old.claimed(p))), tm.And(old.owned(p), tm.Eq(new.role(p), static)))
+        claims = tm.ForAll([(p.s, STR)], tm.And(kept, added), patterns=[[new.claimed(p)], [new.role(p)], [new.creator(p)]])
+        rest = common.frame_view(old, new, claims_changed=True)
+        return wrap_bool(tm.And(claims, rest))
 
 
 @contract("stepup/core/workflow.py::Workflow._hashes_to_check", props=[], verify=False,
@@ -605,8 +616,9 @@ def _all_pending_ok(e, seq, start):
     v = common.View(db)
     k = I(e.q.k)
     p = seq.elem(k)
+    # unclaimed, or under an attached static tree (where _declare_file refuses the step anyway)
     return tm.Implies(tm.And(tm.Le(start, k), tm.Lt(k, seq.length)),
-                      tm.And(tm.Not(v.claimed(p)), tm.Not(v.globmatch(p))))
+                      tm.And(tm.Or(tm.Not(v.claimed(p)), v.owned(p)), tm.Not(v.globmatch(p))))
 
 
 def _distinct(e, seq):
